@@ -2291,11 +2291,15 @@ def run_check(c, prop):
                     hb["len_max"] = max(hb["len_max"], b["len"])
                     k = "1-8" if b["len"] <= 8 else "9-32" if b["len"] <= 32 else "33-128" if b["len"] <= 128 else "129+"
                     hb["len_histogram"][k] = hb["len_histogram"].get(k, 0) + 1
+        hb_kinds = ("byte-level model of fsg_search_hyp", "fsg_search_hyp returned NULL / a string where", "hypothesis of C01_hyp_cstring",
+                    "strlen of the returned hypothesis string", "self-test of the allocation-size observer",
+                    "allocated size of the returned hypothesis string", "bytes of the block holding the returned hypothesis string")
+        hb["mismatches"] = sum(1 for tag, cs in cases for pr in results[tag]["p1"] if pr[0].startswith(hb_kinds))
         c.oblige("correspondence (byte level, Model/HypBuf.lean): on every dump with a hypothesis the block decoder_hyp returned has "
                  "allocated size = the model's len = Σ(strlen(base form) + 1), strlen = len - 1, and every byte of the block = the model's "
                  "block (pass 2 run on the dumped backtrace: no store out of bounds, c ends at 0, each byte 0..len-2 stored once, no NUL "
                  "inside a word); allocation-size observer self-tested; ≥ 1 block compared with its allocation size",
-                 all_ok["corr"] and (hb["with_allocation_size"] > 0 or not all_ok["crash"] or agg["with_hyp"] == 0), hb)
+                 hb["mismatches"] == 0 and (hb["with_allocation_size"] > 0 or not all_ok["crash"] or agg["with_hyp"] == 0), hb)
         c.cov["hypothesis_blocks (c01hyp)"] = hb
     c.oblige("every decode ran to completion (no sanitizer report, assert, exit, timeout)", all_ok["crash"])
     c.oblige("generator: final results of utterances of 0, 1, 2, 3 and 4 frames were all produced and judged in this run",
